@@ -174,7 +174,9 @@ Print Assumptions c11_roundtrip_refuted.
 
 (* Totality of the parser model: for EVERY token list the fuel parse_tokens passes (6 * length + 10) is enough — the
    model never answers "out of fuel"; so "accepted by the models" (the hypothesis parse_tokens ts = POk t of the
-   theorems above) excludes nothing but syntax errors and literals outside the code-point model. *)
+   theorems above) excludes nothing but syntax errors and literals outside the code-point model.  The LEXER half is
+   not proved total: lex inp = LOk ts is a hypothesis of every round-trip theorem and no lemma excludes the answers
+   LFuel / LNoRule (review 2, N5). *)
 Theorem c11_parse_total : forall ts,
   (exists t, parse_tokens ts = POk t) \/ parse_tokens ts = PSyntax \/ parse_tokens ts = POutside.
 Proof. exact parse_total_stmt. Qed.
